@@ -908,8 +908,10 @@ func (em *emitter) emitBuiltin(call *ast.Call, reg int8, dstType reflect.Type) {
 		em.changeRegister(false, tmp, reg, intType, dstType)
 		em.fb.exitStack()
 	case "delete":
-		mapp := em.emitExpr(args[0], em.typ(args[0]))
-		key := em.emitExpr(args[1], em.typ(args[1]))
+		mapType := em.typ(args[0])
+		mapp := em.emitExpr(args[0], mapType)
+		// The key is converted to the type of the keys of the map.
+		key := em.emitExpr(args[1], mapType.Key())
 		em.fb.emitDelete(mapp, key)
 	case "len":
 		typ := em.typ(args[0])
